@@ -61,6 +61,9 @@ def tree_streams(check, prop):
     sts.append(S("string-level-api", TreeCheck.stringapi_ops(big) + ["end"]))
     if prop == "C15":
         sts.append(S("faults-inside-walks", TreeCheck.fault_walk_ops(big) + ["end"]))
+        # the failure reports (result AND errno-derived verdicts) of a table created thread-safe
+        ts = [o.replace("new 0", "new 10") for o in TreeCheck.nulldata_ops(faults=True) + TreeCheck.fault_walk_ops(False)[:400]]
+        sts.append(S("threadsafe-option", ts + ["end"]))
     if prop == "C15":
         # every allocating operation x failure at the 1st, 2nd, ... allocation (single and
         # "all from k on"), from a corpus of prefix states; full observation afterwards
